@@ -481,20 +481,18 @@ class FmtStr:
         ]
 
     def splitlines(self, keepends: bool = False) -> List["FmtStr"]:
-        """Return a list of lines, split on newline characters,
-        include line boundaries, if keepends is true."""
-        if keepends:
-            s = self.s
-            ends = [m.end() for m in re.finditer("\n", s)]
-            if not ends or ends[-1] < len(s):
-                ends.append(len(s))  # last line has no newline to keep
-            return [
-                self[start:end]
-                for start, end in zip([0] + ends[:-1], ends)
-                if start != end
-            ]
-        lines = self.split("\n")
-        return lines if lines[-1] else lines[:-1]
+        """Return a list of lines, split at the line boundaries str.splitlines
+        uses, include line boundaries, if keepends is true."""
+        lines = []
+        start = 0
+        for line in self.s.splitlines(True):
+            end = start + len(line)
+            if keepends:
+                lines.append(self[start:end])
+            else:
+                lines.append(self[start : start + len(line.splitlines()[0])])
+            start = end
+        return lines
 
     # proxying to the string via __getattr__ is insufficient
     # because we shouldn't drop foreground or formatting info
